@@ -162,6 +162,7 @@ def finish(ctx, level_text, seed=0):
             "bodies_analysed": len(ctx.engine.stat_bodies),
             "paths_enumerated": ctx.engine.stat_paths,
             "instance_counts": ctx.counts,
+            "writers_of_tracked_items": ctx.cache.get("writers"),
             "rules": ctx.rule_texts,
             "not_decided": ctx.not_decided,
             "tree_hash": ctx.tree_hash,
